@@ -143,6 +143,54 @@ def h_rotation_map(env, N):
     env.goal('generator_unchanged', b_and(arr_eq(G.g, gg), eq(G.p, pg)))
 
 
+def h_rotation_map_history(env, N, how):
+    """request the map of a generator, change the returned map in place, request the map of the same generator again:
+    the second answer is again conjugation by exp(i pi/4 G) (returned tables are the caller's to modify)"""
+    M = Mods(env)
+    gg = env.bits('gen', (2 * N,))
+    pg = env.signs('gen_sign', (1,))[0]
+    r = env.run(lambda: M.st.clifford_rotation_map(M.pa.Pauli(gg.copy(), pg)))
+    env.goal('no_exception', b_not(r.raised))
+    if r.value is None:
+        return
+    m = r.value
+    if how == 'rotate':
+        hh = env.bits('h', (2 * N,))
+        ph = env.signs('h_sign', (1,))[0]
+        r1 = env.run(lambda: m.rotate_by(M.pa.Pauli(hh.copy(), ph)))
+    elif how == 'masked_rotate':
+        hh = env.bits('h', (2,))
+        r1 = env.run(lambda: m.rotate_by(M.pa.Pauli(hh.copy(), 0), mask=np.array([True] + [False] * (N - 1))))
+    else:
+        def edit():
+            m.gs[0, 0] = 1 - m.gs[0, 0]
+            m.ps[2 * N - 1] = (m.ps[2 * N - 1] + 2) % 4
+        r1 = env.run(edit)
+    env.goal('update_no_exception', b_not(r1.raised))
+    r2 = env.run(lambda: M.st.clifford_rotation_map(M.pa.Pauli(gg.copy(), pg)))
+    env.goal('second_no_exception', b_not(r2.raised))
+    if r2.value is None:
+        return
+    m2 = r2.value
+    env.goal('fresh_object', m2 is not m and not np.shares_memory(np.asarray(m2.gs), np.asarray(m.gs)) and not np.shares_memory(np.asarray(m2.ps), np.asarray(m.ps)))
+    for k in range(2 * N):
+        unit = oarr([1 if i == k else 0 for i in range(2 * N)])
+        ge, pe = ref.ref_rotate(gg, pg, unit, 0)
+        env.goal('second_row%d' % k, b_and(arr_eq(m2.gs[k], ge), eq(m2.ps[k], pe)))
+    # and through a compiled gate generated by the same G (compile() asks for the rotation map again)
+    def compiled_action():
+        gate = M.ci.clifford_rotation_gate(M.pa.Pauli(gg.copy(), pg))
+        gate.compile()
+        lst = M.pa.PauliList(oarr([[1 if i == k else 0 for i in range(2 * N)] for k in range(2 * N)]), oarr([0] * (2 * N)))
+        return gate.forward(lst)
+    r3 = env.run(compiled_action)
+    if r3.value is not None:
+        for k in range(2 * N):
+            unit = oarr([1 if i == k else 0 for i in range(2 * N)])
+            ge, pe = ref.ref_rotate(gg, pg, unit, 0)
+            env.goal('compiled_row%d' % k, b_implies(b_not(r3.raised), b_and(arr_eq(r3.value.gs[k], ge), eq(r3.value.ps[k], pe))))
+
+
 def jobs(tier):
     J = []
     nmax = 3 if tier == 'quick' else 4
@@ -160,4 +208,7 @@ def jobs(tier):
                     continue
                 J.append(dict(harness=('c02', 'h_rotate_list'), params=dict(N=N, mask=m, L=(2 * N if kind == 'map' else 2), kind=kind)))
         J.append(dict(harness=('c02', 'h_rotation_map'), params=dict(N=N)))
+        if N <= (2 if tier == 'quick' else 3):
+            for how in ('rotate', 'masked_rotate', 'edit'):
+                J.append(dict(harness=('c02', 'h_rotation_map_history'), params=dict(N=N, how=how), timeout_s=300, cost=10))
     return J
